@@ -171,7 +171,7 @@ Proof.
   assert (D12 : dim y 12 = 31) by reflexivity.
   assert (V31 : valid_ymd y 12 31 = true) by (unfold valid_ymd; rewrite D12; lia).
   assert (O : ord_of_ymd y 12 31 = days_before_year y + 366).
-  { unfold ord_of_ymd, dbm. rewrite L. reflexivity. }
+  { unfold ord_of_ymd, dbm. rewrite L. change (12 <=? 2) with false. cbv iota. lia. }
   eexists. split; [apply (mk_yearday 366 12 32); [lia | vm_compute; reflexivity]|]. split.
   - unfold spec_yearday_date, year_len. rewrite L. cbn [Z.leb Z.compare andb].
     replace (ord_of_ymd y 1 1 + 366 - 1) with (ord_of_ymd y 12 31) by (rewrite O; unfold ord_of_ymd; rewrite dbm_1; lia).
@@ -280,14 +280,15 @@ Proof.
   unfold valid_time in T. unfold t, tod, us_sec. f_equal; lia.
 Qed.
 
-Lemma add_month_day_dt lp mo dd y m0 d0 hh mi ss us :
-  valid_dt (PDT y m0 d0 hh mi ss us) = true -> 1 <= mo <= 12 -> 1 <= dd <= dim y mo ->
-  1 <= ord_of_ymd y mo dd + (if (2 <? mo) && is_leap y then lp else 0) <= max_ord ->
+Lemma add_month_day_dt_clip lp mo dd y m0 d0 hh mi ss us :
+  valid_dt (PDT y m0 d0 hh mi ss us) = true -> 1 <= mo <= 12 -> 1 <= dd ->
+  1 <= ord_of_ymd y mo (Z.min dd (dim y mo)) + (if (2 <? mo) && is_leap y then lp else 0) <= max_ord ->
   add_dt (mkrd rel0 lp (mkabs None (Some mo) (Some dd) None None None None) None) (PDT y m0 d0 hh mi ss us)
-  = Ok (let '(yy, mm, d') := ymd_of_ord (ord_of_ymd y mo dd + (if (2 <? mo) && is_leap y then lp else 0))
+  = Ok (let '(yy, mm, d') := ymd_of_ord (ord_of_ymd y mo (Z.min dd (dim y mo)) +
+                                        (if (2 <? mo) && is_leap y then lp else 0))
         in PDT yy mm d' hh mi ss us).
 Proof.
-  intros V Hmo Hdd Hr. apply res_opt_some.
+  intros V Hmo Hdd Hr. pose proof (dim_pos y mo) as DP. apply res_opt_some.
   set (d := mkrd rel0 lp (mkabs None (Some mo) (Some dd) None None None None) None).
   assert (W : wf_rd d = true).
   { unfold wf_rd, norm_rel, d.
@@ -299,20 +300,32 @@ Proof.
   cbn [rel ab wd leapdays rel0 f_years f_months a_year a_month oget ym_of fst snd].
   replace ((12 * y + (mo - 1) + 12 * 0 + 0) / 12) with y by lia.
   replace ((12 * y + (mo - 1) + 12 * 0 + 0) mod 12 + 1) with mo by lia.
-  unfold spec_base. cbn [ab a_day a_hour a_minute a_second a_us oget day_of]. rewrite Z.min_l by lia.
+  unfold spec_base. cbn [ab a_day a_hour a_minute a_second a_us oget day_of].
+  set (dc := Z.min dd (dim y mo)) in *.
   cbn [valid_dt] in V. apply andb_prop in V. destruct V as [V T].
-  assert (VB : valid_dt (PDT y mo dd hh mi ss us) = true)
-    by (cbn [valid_dt]; rewrite T; unfold valid_ymd in *; lia).
+  assert (VB : valid_dt (PDT y mo dc hh mi ss us) = true)
+    by (cbn [valid_dt]; rewrite T; unfold valid_ymd, dc in *; lia).
   rewrite VB. unfold spec_dur, spec_wd. cbn [rel rel0 f_days f_hours f_minutes f_seconds f_us leapdays lin wd].
   set (adj := if (2 <? mo) && is_leap y then lp else 0) in *.
   pose proof (tod_range _ _ _ _ T) as R.
-  replace ((ord_of_ymd y mo dd - 1) * us_day + tod hh mi ss us +
+  replace ((ord_of_ymd y mo dc - 1) * us_day + tod hh mi ss us +
            ((0 + adj) * us_day + 0 * 3600000000 + 0 * 60000000 + 0 * us_sec + 0))
-    with ((ord_of_ymd y mo dd + adj - 1) * us_day + tod hh mi ss us) by (unfold us_day, us_sec; lia).
+    with ((ord_of_ymd y mo dc + adj - 1) * us_day + tod hh mi ss us) by (unfold us_day, us_sec; lia).
   unfold at_lin.
   match goal with |- context [if ?c then Some _ else None] => destruct c eqn:C end;
     [|exfalso; unfold lin_max_dt, max_ord, us_day in *; lia].
   rewrite dt_of_lin_parts by exact T. reflexivity.
+Qed.
+
+Lemma add_month_day_dt lp mo dd y m0 d0 hh mi ss us :
+  valid_dt (PDT y m0 d0 hh mi ss us) = true -> 1 <= mo <= 12 -> 1 <= dd <= dim y mo ->
+  1 <= ord_of_ymd y mo dd + (if (2 <? mo) && is_leap y then lp else 0) <= max_ord ->
+  add_dt (mkrd rel0 lp (mkabs None (Some mo) (Some dd) None None None None) None) (PDT y m0 d0 hh mi ss us)
+  = Ok (let '(yy, mm, d') := ymd_of_ord (ord_of_ymd y mo dd + (if (2 <? mo) && is_leap y then lp else 0))
+        in PDT yy mm d' hh mi ss us).
+Proof.
+  intros V Hmo Hdd Hr. rewrite add_month_day_dt_clip; rewrite ?Z.min_l by lia; try assumption; try lia.
+  reflexivity.
 Qed.
 
 Theorem yearday_spec_datetime n y m0 d0 hh mi ss us :
@@ -345,4 +358,29 @@ Proof.
     destruct (ymd_of_ord _) as [[a b] c]. reflexivity.
   - fold lp. rewrite add_month_day_dt; [| exact V | exact Hmo | lia | rewrite EO; exact RG].
     rewrite EO. destruct (ymd_of_ord _) as [[a b] c]. reflexivity.
+Qed.
+
+(* ---- datetime operands, every day of the year *)
+Theorem yearday_spec_datetime_full n y m0 d0 hh mi ss us :
+  1 <= n <= year_len y -> valid_dt (PDT y m0 d0 hh mi ss us) = true ->
+  exists d yy mm dd,
+    mk (kw_yearday n) = Ok d /\ spec_yearday_date y n = Some (yy, mm, dd) /\
+    add_dt d (PDT y m0 d0 hh mi ss us) = Ok (PDT yy mm dd hh mi ss us).
+Proof.
+  intros Hn V. destruct (Z_le_gt_dec n 365) as [H|H].
+  - apply yearday_spec_datetime; [lia | exact V].
+  - assert (n = 366 /\ is_leap y = true) as [-> L].
+    { unfold year_len in Hn. destruct (is_leap y); [split; [lia | reflexivity] | lia]. }
+    assert (Vy : valid_ymd y m0 d0 = true) by (cbn [valid_dt] in V; apply andb_prop in V; tauto).
+    destruct (yearday_366_leap y m0 d0 L Vy) as (d & A & B & _).
+    assert (Hy : 1 <= y <= 9999) by (unfold valid_ymd in Vy; lia).
+    assert (D12 : dim y 12 = 31) by reflexivity.
+    assert (V31 : valid_ymd y 12 31 = true) by (unfold valid_ymd; rewrite D12; lia).
+    pose proof (ord_of_ymd_range _ _ _ V31) as RG.
+    exists d, y, 12, 31. split; [exact A|]. split; [exact B|].
+    rewrite (mk_yearday 366 12 32) in A by (try lia; vm_compute; reflexivity). injection A as <-.
+    change ((59 <? 366) && (366 <? 366)) with false. cbv iota.
+    rewrite add_month_day_dt_clip; rewrite ?D12; try assumption; try lia;
+      change (Z.min 32 31) with 31; destruct ((2 <? 12) && is_leap y); rewrite ?Z.add_0_r; try lia;
+      rewrite ymd_of_ord_of_ymd by (rewrite ?D12; lia); reflexivity.
 Qed.
